@@ -1053,7 +1053,14 @@ class Message(ABC):
                     sk = _serialize_single(1, meta.map_types[0], k)
                     sv = _serialize_single(2, meta.map_types[1], v)
                     stream.write(
-                        _serialize_single(meta.number, meta.proto_type, sk + sv)
+                        _serialize_single(
+                            meta.number,
+                            meta.proto_type,
+                            sk + sv,
+                            # an entry whose key and value are both defaults is
+                            # still an entry of the map
+                            serialize_empty=True,
+                        )
                     )
             else:
                 # If we have an empty string and we're including the default value for
@@ -1158,7 +1165,9 @@ class Message(ABC):
                     assert meta.map_types
                     sk = _serialize_single(1, meta.map_types[0], k)
                     sv = _serialize_single(2, meta.map_types[1], v)
-                    size += _len_single(meta.number, meta.proto_type, sk + sv)
+                    size += _len_single(
+                        meta.number, meta.proto_type, sk + sv, serialize_empty=True
+                    )
             else:
                 # If we have an empty string and we're including the default value for
                 # a oneof, make sure we serialize it. This ensures that the byte string
